@@ -415,6 +415,11 @@ func ruleSibling9(c *Ctx) {
 				if e.Sel.Name == "Type" {
 					if o := c.objOf(e.X); o != nil {
 						if _, isVar := o.(*types.Var); isVar && typeStr(o.Type()) == "*val.Val" {
+							if fd, ok := n.(*ast.FuncDecl); ok {
+								if r, ok := c.localNames(fd, fd)[o]; ok {
+									return r, true
+								}
+							}
 							return sxWith(e.X, sub), true
 						}
 					}
@@ -429,7 +434,12 @@ func ruleSibling9(c *Ctx) {
 			}
 			return "", false
 		}
-		out := sxWith(list, sub)
+		var out string
+		if fd, ok := n.(*ast.FuncDecl); ok {
+			out = c.sxNWith(fd, list, sub) // locals, parameters and the receiver by role: renaming one copy is harmless
+		} else {
+			out = sxWith(list, sub)
+		}
 		out = strings.ReplaceAll(out, "[ ", "[")
 		out = strings.ReplaceAll(out, "  ", " ")
 		return out
